@@ -89,7 +89,7 @@ func (c02) Build(tier string, seed uint64) []any {
 		}
 	}
 	// (cell)
-	per := 3
+	per := 6
 	if th {
 		per = 40
 	}
